@@ -110,7 +110,19 @@ class Order:
         return xt, y
 
     def check(self, case):
-        """case: cls, qt, u, v, ca, cb, x, rel [, frac]"""
+        """case: cls, qt, u, v, ca, cb, x, rel [, frac]; an exception raised by the library while two amounts of one
+        quantity type are built or ordered is a violation (collected), not the end of the sweep"""
+        try:
+            return self._check(case)
+        except core.Viol:
+            raise
+        except Exception as e:
+            where = core.tree_frame(e)
+            if where is None:
+                raise
+            self.ctx.record("order_raises:%s:%s@%s" % (case.get("cls"), type(e).__name__, where), case, "ordering a and b (case %r) raised %s: %s" % (case, type(e).__name__, str(e)[:200]))
+
+    def _check(self, case):
         ctx = self.ctx
         xt, y = self.amounts(case)
         frac = case.get("frac")
